@@ -1,30 +1,43 @@
 import Restli.Proofs.EndToEnd
 import Restli.Props.C05
+import Restli.Props.C15
 /-! # C02 — end-to-end call fidelity: generated client → HTTP → generated server and back
 
 Property theorems only (helper lemmas: `Proofs/EndToEnd.lean`). Model: `Model/EndToEnd.lean` — the
 generated client method, `formatQueryUrl`, `newRequest` with tunnelling, `DecodeTunnelledQuery`,
 `ServeHTTP`/`receive`, the registered closure with the generated decoders, the `Register*` adapters,
-the response half of `ServeHTTP`, the client's response handling. It *calls* the existing models
-(`Model/Routing`, `HttpUrl`, `Tunnel`, `Encode`/`Render*`, `Ror2Reader`, `TreeReader`, `Patch`) as
-they are, and the theorems below *apply* the other properties' theorems where they are proved:
+the response half of `ServeHTTP`, net/http's treatment of response header values, the client's
+response handling. The model *calls* the existing models (`Model/Routing`, `HttpUrl`, `Tunnel`,
+`Encode`/`Render*`, `Ror2Reader`, `TreeReader`, `Patch`) as they are, and the theorems below *apply*
+the other properties' theorems wherever those are proved:
 
-* routing (C05): `walk_some`, `locateAt_simple_nokey` and the routing model itself — applied;
-* tunnelling transparency (C14): `decode_sent`, `sent_plain`, `decode_no_override` — applied, with
-  C14's own hypotheses `TokenBoundary` / `BoundaryFresh` about Go's random boundary;
-* URL construction (C15): enters as the hypothesis `UrlLaw` (the request URL keeps context path +
-  resource path and the raw query), which `c15_url_preserved_partial` discharges under its guards —
-  among them `NoDotSegments`, the guard of finding C02-dot-segment-key below;
-* codec round trips (C01; C11 for patches): enter as the hypothesis that the closure's decoders,
-  run on the client's own key texts / parameter pairs / body bytes, return the caller's values
-  (`hcodec`); `decodeInvocation_client` splits it into one round trip per component;
+* routing (C05): `walk_some`, `locateAt_simple_nokey`, `c05_exactly_one(_served)` — applied;
+* tunnelling transparency (C14): `decode_sent`, `sent_plain`, `decode_no_override` — applied, under
+  C14's own hypotheses `TokenBoundary` / `BoundaryFresh` about Go's random multipart boundary;
+* URL construction (C15): `UrlLaw` (the request URL is context path + resource path, raw query kept)
+  is derived from `c15_url_preserved_partial` in `c02_url_law_from_c15`, under C15's guard
+  `NoDotSegments` — the guard of finding C02-dot-segment-key below;
+* JSON values (C01): `json_roundtrip_tree` — applied in the response direction; the step from the
+  emitted JSON *text* to the tree the writers denote is C03's pending whole-document theorem and
+  enters as the hypothesis `JsonText` (compared with two independent parsers on every run);
+* request-direction codec round trips (C01 for keys, parameters, bodies; C11 for patches): enter as
+  the hypothesis `hcodec` — the closure's decoders, run on the client's own key texts, sorted
+  parameter pairs and body bytes, return the caller's values; `decodeInvocation_client` shows that
+  these three byte-level inputs are exactly the client's three byte-level outputs;
 * cleanliness of what the writers emit (C01 `c01_escaped_is_clean`, C03
-  `c03_ror2_string_token_wellformed`): key texts contain no `/`, parameter texts no `&`, and both are
-  balanced in parentheses (`ValidateRor2Input`) — hypotheses `htexts`, `hpairs`.
+  `c03_ror2_string_token_wellformed`): key texts contain no `/`, parameter texts no `&`, both are
+  balanced in parentheses (`ValidateRor2Input`) — hypotheses `htexts`, `hpairs`;
+* batch key correlation (C16): `c02_batch_entries_filed_under_caller_keys` is the client loop of this
+  model; which replies meet its hypotheses is C16's subject.
 
 Findings of the current code that bound the full statement (each replayed on the real code by
-`bin/check C02`, see known-findings.jsonl): a path key that is a dot segment (`c02_dot_segment_key_cex`),
-a created id that is not a transparent HTTP header value (`c02_created_id_header_cex`). -/
+`bin/check C02`, see known-findings.jsonl):
+* a path key that is a dot segment — `c02_dot_segment_key_cex`, guard `NoDotSegments` (through `UrlLaw`);
+* a created id that is not a transparent HTTP header value — `c02_created_id_header_cex`, guard
+  `HeaderSafe` of `c02_created_id_partial`.
+Statuses left at zero are the protocol's defaults, not findings: `CreatedEntity.Status = 0` is sent
+as 201, `BatchEntityUpdateResponse.Status = 0` as 204 (`createdStatus`; the direct oracle reads them
+the same way). -/
 namespace Restli.E2E
 open Restli Restli.Codec
 open Restli.Routing (Method)
@@ -44,6 +57,8 @@ theorem c02_constants_ok_v2 : ConstsOk constsV2 where
     cases m <;> first | exact absurd rfl hm | decide +kernel
   sortKeys := rfl
   okStatus := by decide
+  finderStr := by decide +kernel
+  actionStr := by decide +kernel
   elemMeta := by decide +kernel
   metaPaging := by decide +kernel
   elemPaging := by decide +kernel
@@ -107,6 +122,27 @@ theorem c02_routed_to_method (K : Consts) (hK : ConstsOk K) (roots : List Routin
   have := routeX_client K hK roots r node hnode texts hlen htexts q hqv hkind
   simp [Routing.route, this]
 
+/-- **The generated client meets `KindOk`.** When the resource description and the registration agree
+(`SpecOk`: both are emitted from one restspec) the request the generated client builds satisfies
+everything routing asks of the method kind: the finder name travels under `q`, the action name under
+`action` (`queryPairs_reserved`), and `receive` finds them there among the sorted, joined and re-cut
+parameters. Hypotheses about the parameter pairs: clean texts (C01/C03), distinct names, and no
+parameter called `action` on a method that is not an action (restspec well-formedness). -/
+theorem c02_client_meets_kind (K : Consts) (hK : ConstsOk K) (env : Env) (r : ResSpec) (c : Call)
+    (node : Routing.Node) (hs : SpecOk r node)
+    (pairs : Option (List (Bytes × Bytes))) (hp : queryPairs K env r c = some pairs)
+    (hclean : ∀ e ∈ pairs.getD [], PairClean e)
+    (hn : ((sortByKey (pairs.getD [])).map (·.1)).Nodup)
+    (hname : r.method.kind = .finder ∨ r.method.kind = .action → K.queryEsc r.method.name = r.method.name)
+    (hnoaction : r.method.kind ≠ .action → ∀ e ∈ pairs.getD [], e.1 ≠ K.pAction) :
+    KindOk K r node (stringQuery ((pairs.map joinQuery).getD [])) := by
+  apply kindOk_of_pairs K hK r node hs pairs hclean hn
+  · intro hk
+    exact (queryPairs_reserved K env r c pairs hp (hs.nameNe (Or.inl hk)) (hname (Or.inl hk))).1 hk
+  · intro hk
+    exact (queryPairs_reserved K env r c pairs hp (hs.nameNe (Or.inr hk)) (hname (Or.inr hk))).2 hk
+  · exact hnoaction
+
 /-- **Exactly one resource method runs, and it is the call's.** With the routing decision above and
 no filter in the way, the handler's event list has exactly one invocation, and every invocation in
 it carries the call's facts (C05's `c05_exactly_one`, instantiated). -/
@@ -139,6 +175,50 @@ structure UrlLaw (cfg : Cfg) (root rp : Bytes) (query : Option Bytes) (u : Url.U
   parsed : ∃ host, Url.parse (baseUrlText cfg) = .ok host ∧ HttpUrl.requestUrl host root rp query = .ok u
   path : Url.escapedPath u = cfg.pfx ++ rp
   rawQuery : u.rawQuery = query.getD []
+
+/-- the resolver URL of the model, as a base URL of C15's grammar: `http://c02.test` + context segments -/
+def baseOf (ctx : List Bytes) : HttpUrlSpec.Base :=
+  { authority := some ⟨sB "http", sB "c02.test", [], false⟩, segs := ctx, trailingSlash := false }
+
+/-- **`UrlLaw` is C15's theorem.** For a context path of well-formed segments that does not contain
+the root resource's name, a resource path and query of the encoders' alphabets and — C15's guard 1,
+the guard of finding C02-dot-segment-key — no `.`/`..` segment in the path:
+`c15_url_preserved_partial` yields the request URL with the context path followed by the resource
+path and the raw query kept byte for byte. -/
+theorem c02_url_law_from_c15 (cfg : Cfg) (ctx : List Bytes) (hpfx : cfg.pfx = HttpUrlSpec.joinSegs ctx)
+    (root rp : Bytes) (q : Option Bytes)
+    (hwf : (baseOf ctx).wf = true) (hrp : HttpUrlSpec.resourcePathOk root rp = true)
+    (hq : HttpUrlSpec.queryText (q.getD []) = true) (hroot : ∀ s ∈ ctx, s ≠ root)
+    (guard : HttpUrlSpec.NoDotSegments (HttpUrlSpec.joinSegs ctx ++ rp)) :
+    ∃ u, UrlLaw cfg root rp q u := by
+  have hlast : ctx.getLast? ≠ some root := by
+    intro h
+    exact hroot root (List.mem_of_getLast? h) rfl
+  have hexp : HttpUrlSpec.expectedPath (baseOf ctx).segs root rp = HttpUrlSpec.joinSegs ctx ++ rp := by
+    simp [HttpUrlSpec.expectedPath, baseOf, hlast]
+  have hP := HttpUrl.c15_url_preserved_partial (baseOf ctx) root rp q hwf hrp hq
+    (fun s hs => hroot s (List.dropLast_subset _ hs))
+    (by rw [hexp]; exact guard)
+    (fun h => absurd h hlast)
+  have htext : (baseOf ctx).text = baseUrlText cfg := by
+    have : sB "http" ++ [58, 47, 47] ++ (sB "c02.test" ++ []) = sB "http://c02.test" := by decide +kernel
+    simp only [HttpUrlSpec.Base.text, baseOf, HttpUrlSpec.Authority.text, HttpUrlSpec.Authority.host, HttpUrlSpec.Base.ctx,
+      Bool.false_eq_true, if_false, List.append_nil, baseUrlText, hpfx]
+    rw [← this]; simp
+  unfold HttpUrl.UrlPreserved at hP
+  rw [htext] at hP
+  cases hparse : Url.parse (baseUrlText cfg) with
+  | ok host =>
+    cases hreq : HttpUrl.requestUrl host root rp q with
+    | ok u =>
+      simp only [hparse, hreq] at hP
+      exact ⟨u, ⟨host, hparse, hreq⟩, by rw [hP.path_exact, hexp, hpfx], hP.query_exact⟩
+    | err => simp [hparse, hreq] at hP
+    | unmodelled w => simp [hparse, hreq] at hP
+    | panic => simp [hparse, hreq] at hP
+  | err => simp [hparse] at hP
+  | unmodelled w => simp [hparse] at hP
+  | panic => simp [hparse] at hP
 
 /-- **End-to-end, request direction.** For every registered resource shape, method kind, call, context
 path and tunnelling threshold: if the client marshals the call (key texts `texts`, parameter pairs
@@ -250,6 +330,22 @@ theorem c02_returns_elements_paging (K : Consts) (hK : ConstsOk K) (env : Env) (
       .elements (vs.map (norm env encFuel ty)) (paging.map (norm env encFuel (.ref tCollMeta))) none := by
   obtain ⟨resp, h1, h2⟩ := returns_elements K hK env F C S keq r c ty hkind hty vs hvs ds hds paging hpv pg hpg hmeta ht
   simp [callReturns, h1, h2]
+
+/-- **Per-key batch results, statuses and errors are filed under the caller's keys.** One map of a
+batch response (`results`, `statuses` or `errors`), read by the client's correlation loop: if every
+member's name reads as a key that the key type's equality (`keq`: `Equals`, `ComplexKeyEquals`)
+finds among the caller's keys and its value decodes, and no two members name the same caller key,
+then the map the client returns has exactly one entry per member, in the members' order, each under
+the CALLER's key (`orig`) with the member's decoded value — none lost, none duplicated, none moved to
+another key. (That a server reply about requested keys meets the hypotheses, and that a reply that
+does not is rejected, is C16: `c16_response_filed_under_original`, `c16_unknown_key_is_error`,
+`c16_response_repeated_key_is_error`; the values' round trips are C01.) -/
+theorem c02_batch_entries_filed_under_caller_keys {β : Type} (env : Env) (kt : Ty) (keq : Value → Value → Bool)
+    (callKeys : List Value) (dec : Json.JVal → Dec β) (orig : Bytes → Value) (val : Json.JVal → β)
+    (ms : List (Bytes × Json.JVal)) (hms : ∀ m ∈ ms, MemberOk env kt keq callKeys dec orig val m)
+    (hdistinct : (ms.map (fun m => orig m.1)).Pairwise (fun a b => keq a b = false)) :
+    decodeBatchMap env kt keq callKeys dec [] ms = .ok (ms.map (fun m => (orig m.1, val m.2))) :=
+  decodeBatchMap_members env kt keq callKeys dec orig val ms [] hms hdistinct (by intro s hs; cases hs)
 
 /-- the full-strength statement on the created id: whatever id the implementation returns, the client
 returns the id its header text decodes to, and the implementation's status. FALSE today
